@@ -162,6 +162,9 @@ class LDAPMessageParsableBase(ParsableBase):
                 six.raise_from(NotEnoughData(bytes_requested - bytes_available), e)
             else:
                 six.raise_from(InvalidValue(parsable, cls), e)
+        except (KeyError, TypeError, AttributeError) as e:
+            # asn1crypto reports some malformed or unexpected structures with these
+            six.raise_from(InvalidValue(parsable, cls), e)
 
         return message
 
